@@ -7,7 +7,7 @@ if ! git -C /repo diff --quiet; then echo "/repo not clean"; exit 2; fi
 git -C /repo apply "$patch" || { echo "patch does not apply"; exit 2; }
 for id in "$@"; do
   echo "=== $id with $(basename $(dirname $patch)) applied (tier ${TIER:-quick})"
-  timeout 1800 ./check $id --tier ${TIER:-quick} 2>&1 | tail -${TAILN:-6}
+  VERIF_EVIDENCE_DIR=/tmp/seed_evidence timeout 1800 ./check $id --tier ${TIER:-quick} 2>&1 | tail -${TAILN:-6}
   echo "exit=$?"
 done
 git -C /repo checkout -- .
